@@ -1,1 +1,18 @@
-fn main(){}
+//! Engine A ("simnet"): scenario runner and monitors for the `turmoil` crate.
+mod checks;
+mod rec;
+mod util;
+
+fn main() {
+    let args: Vec<String> = std::env::args().collect();
+    let ctx = vcore::Ctx::from_args(&args[1..]);
+    vcore::install_quiet_panic_hook();
+    match ctx.prop.as_str() {
+        "C05" => checks::c05::run(&ctx),
+        "C14" => checks::c14::run(&ctx),
+        other => {
+            println!("INCONCLUSIVE property={other} not served by simnet");
+            std::process::exit(2);
+        }
+    }
+}
